@@ -20,7 +20,7 @@ def gen_plan(rng, family):
     """family selects the mix; every plan is a dict that json can dump"""
     plan = {"family": family, "workers": rng.choice([1, 1, 2, 2, 3]), "timeout": None, "reusable": False,
             "kill_budget": 0, "threads": [[]], "final": "await+shutdown"}
-    kinds_ok = ["value", "value", "long", "raise", "sysexit", "badarg", "hugearg", "badresult"]
+    kinds_ok = ["value", "value", "long", "raise", "sysexit", "badarg", "hugearg", "bigarg", "badresult"]
     n = rng.randint(1, 6)
     main = plan["threads"][0]
     if family == "plain":                       # C03 C04 C08: no faults from the environment
@@ -63,8 +63,14 @@ def gen_plan(rng, family):
         plan["timeout"] = rng.choice([None, None, 0.05])
         for _ in range(n):
             main.append(["submit", rng.choice(["value", "long", "raise", "badarg"])])
-        how = rng.choice(["wait", "nowait", "del", "exit", "ctx"])
-        main.insert(rng.randint(1, len(main)), ["shutdown", how])
+        how = rng.choice(["wait", "nowait", "del", "exit", "ctx", "nowait+wait", "nowait+ctx"])
+        at = rng.randint(1, len(main))
+        if "+" in how:                          # a non-waited shutdown followed, later, by a waited one on the same executor
+            first, second = how.split("+")
+            main.insert(at, ["shutdown", first])
+            main.insert(rng.randint(at + 1, len(main)), ["shutdown", second])
+        else:
+            main.insert(at, ["shutdown", how])
         plan["final"] = "await"
     elif family == "latekill":                  # C05/C01: a worker dies during the shutdown phase
         plan["kill_budget"] = 1
@@ -184,7 +190,7 @@ def gen_plan(rng, family):
             plan["threads"].append([list(args) for _ in range(rng.randint(1, 2))])
         plan["final"] = "await"
     elif family == "callback":                  # C04: done-callbacks that use the executor, run by whichever thread completes the future
-        kinds_cb = ["value", "raise", "sysexit", "badarg", "badarg", "hugearg", "hugearg", "badresult"]
+        kinds_cb = ["value", "raise", "sysexit", "badarg", "badarg", "hugearg", "bigarg", "badresult"]
         for _ in range(n):
             main.append([rng.choice(["submit_cb", "submit_cb", "submit"]), rng.choice(kinds_cb)])
         if rng.random() < 0.3:
@@ -367,8 +373,17 @@ def make_program(plan):
                     ex = get_ex(env)
                     env.notes["flags"] = ex._flags
                     env.notes["procs_at_shutdown"] = list(ex._processes.values())
+                    def at_return(ex=ex):
+                        # the instant a waited shutdown returns: everything must be over already
+                        rec_ = next((x for x in env.all_executors if x["id"] == id(ex)), None)
+                        mt = rec_ and rec_.get("mgr_actor")
+                        env.notes["at_waited_shutdown_return"] = {
+                            "unfinished": sorted(t for t, (_, f) in env.futs.items() if f is not None and not f.done()),
+                            "manager_alive": bool(mt is not None and mt.alive()),
+                            "workers_alive": sorted(p.pid for p in env.notes.get("procs_at_shutdown", []) if p._st is not None and p._st.alive)}
                     if how == "wait":
                         ex.shutdown(wait=True)
+                        at_return()
                     elif how == "nowait":
                         ex.shutdown(wait=False)
                     elif how == "kill":
@@ -376,6 +391,7 @@ def make_program(plan):
                     elif how == "ctx":
                         with ex:
                             pass
+                        at_return()
                     elif how == "del":
                         env.notes.pop("ex", None)
                         env.notes["ex_gone"] = True
@@ -686,6 +702,12 @@ def analyze(plan, r):
                 continue
             if c[0] in ("ShutdownExecutorError",) :
                 add(["C05"], "work-dropped", f"graceful-shutdown-dropped-work how[{how}] ctx[{ctx}]", f"task {tid}: {c}")
+    # 7b. what a waited graceful shutdown leaves at the instant it returns (C05)
+    awr = notes.get("at_waited_shutdown_return")
+    if fam == "shutdown" and awr and not kills and (awr["unfinished"] or awr["manager_alive"] or awr["workers_alive"]):
+        add(["C05"], "waited-shutdown-returned-early",
+            f"waited-shutdown-returned-early unfinished[{bool(awr['unfinished'])}] manager[{awr['manager_alive']}] workers[{bool(awr['workers_alive'])}] "
+            f"how[{notes.get('shutdown')}] ctx[{ctx}]", str(awr))
     # 8. forced shutdown (C06)
     if fam == "killshutdown" and r.status in ("quiescent", "polling"):
         if not notes.get("shutdown_returned"):
@@ -732,6 +754,8 @@ def analyze(plan, r):
                 continue
             if pre is not None and rec["stored_kw"] != pre["kw"]:
                 add(["C09"], "stored-kwargs-mismatch", f"factory-stored-kwargs-are-not-those-of-the-current-instance ctx[{ctx}]", str(rec))
+            if post["is_prev"] and rec["args"]["reuse"] is False:
+                add(["C09"], "reuse-false-ignored", f"factory-returned-the-previous-instance-although-reuse-is-False ctx[{ctx}]", str(rec))
             if post["is_prev"]:
                 if pre is None or pre["broken"] or pre["shutdown"]:
                     add(["C09"], "dead-pool-handed-out", f"factory-returned-dead-previous-instance ctx[{ctx}]", str(rec))
